@@ -11,7 +11,8 @@ LEVEL = ("Static structural conditions: leapfrog stage order by field effects (h
          "pull-back applies the linear factors of the inverse map in transposed order (R4); every writer of a transformation's scales/mean "
          "recomputes logdet and bumps the id on all paths (R5); initialize_trajectory re-whitens exactly when the id changed (R7). "
          "O(eps^2) energy error, volume preservation and exact conservation are numerical and not decided."
-         " Added: the CPU backend carries no state between kernel calls except listed scratch buffers and identity-keyed memos (R8).")
+         " Added: the CPU backend carries no state between kernel calls except listed scratch buffers and identity-keyed memos (R8)."
+         " Added (round 5): one leapfrog per kinetic-energy kind, path-sensitive on the kind - kinetic energy recomputed for Euclidean / ExactNormal, sibling half-steps read the same fields (R11); no two same-typed values handed down in each other's named position (R12, positive control); the ESH half-steps are the unclamped closed form (R13 = C18-R1 analysis).")
 EXPLANATION = "EFF field-effect summaries through helper functions (from the &/&mut signatures of the Math trait), dominance, path enumeration of the small transform functions, monomial normalisation of scalar arguments."
 TRUSTED = ["rustc nightly MIR", "nutsfacts extractor", "rules/eff.py, rules/c02.py", "Math trait contract: &mut Vector parameters are outputs, & Vector parameters inputs"]
 TECHNIQUE = "static analysis: field-effect summaries (EFF) + dominance + operation-sequence mirror comparison"
